@@ -6,3 +6,7 @@ import Ypv.Props.C03
 #print axioms Ypv.C03.set_keeps_anchors
 #print axioms Ypv.C03.set_preserves_anchorWF
 #print axioms Ypv.C03.set_preserves_anchorWF_model
+#print axioms Ypv.C03.opAbs_total
+#print axioms Ypv.C03.opAbs_sound
+#print axioms Ypv.C03.history_refines
+#print axioms Ypv.C03.history_refines_det
